@@ -181,6 +181,8 @@ pub enum CheckerKind {
     Panicking,
     /// byte equality that also records its invocations
     Recording,
+    /// records its invocations and accepts whatever it is shown
+    Lenient,
 }
 
 #[derive(Clone, Debug)]
@@ -236,6 +238,19 @@ fn recording_checker(log: CheckerLog) -> impl Fn(&mut File, &mut File) -> std::i
     }
 }
 
+fn lenient_checker(log: CheckerLog) -> impl Fn(&mut File, &mut File) -> std::io::Result<()> + Sync + Send + std::panic::RefUnwindSafe + std::panic::UnwindSafe + 'static {
+    let log = std::panic::AssertUnwindSafe(log);
+    move |x: &mut File, y: &mut File| {
+        let mut a = Vec::new();
+        let mut b = Vec::new();
+        let (ix, iy) = (ino_of(x), ino_of(y));
+        x.read_to_end(&mut a)?;
+        y.read_to_end(&mut b)?;
+        log.lock().unwrap().push((ix, iy, a, b));
+        Ok(())
+    }
+}
+
 pub fn build_handle(spec: &HandleSpec, dirs: &[DirSpec], log: &CheckerLog) -> Handle {
     match spec {
         HandleSpec::Plain(d) => Handle::Plain(plain::Cache::new(PathBuf::from(&dirs[*d].path), dirs[*d].capacity)),
@@ -285,6 +300,9 @@ pub fn build_handle(spec: &HandleSpec, dirs: &[DirSpec], log: &CheckerLog) -> Ha
                 CheckerKind::Recording => {
                     b.consistency_checker(recording_checker(log.clone()));
                 }
+                CheckerKind::Lenient => {
+                    b.consistency_checker(lenient_checker(log.clone()));
+                }
             }
             Handle::Stack(b.build())
         }
@@ -310,6 +328,9 @@ pub fn build_handle(spec: &HandleSpec, dirs: &[DirSpec], log: &CheckerLog) -> Ha
                 }
                 CheckerKind::Recording => {
                     b.consistency_checker(recording_checker(log.clone()));
+                }
+                CheckerKind::Lenient => {
+                    b.consistency_checker(lenient_checker(log.clone()));
                 }
             }
             Handle::ReadOnly(b.build())
